@@ -127,8 +127,14 @@ class schur_pressure_correction {
                     switch (pattern[0]) {
                         case '%':
                             {
-                                int start  = std::atoi(pattern.substr(1).c_str());
-                                int stride = std::atoi(pattern.substr(3).c_str());
+                                // The pattern has the form %start:stride
+                                size_t colon = pattern.find(':');
+                                precondition(colon != std::string::npos,
+                                        "pmask_pattern should look like %start:stride");
+                                int start  = std::atoi(pattern.substr(1, colon - 1).c_str());
+                                int stride = std::atoi(pattern.substr(colon + 1).c_str());
+                                precondition(start >= 0 && stride > 0,
+                                        "pmask_pattern should look like %start:stride");
                                 for(size_t i = start; i < n; i += stride) pmask[i] = 1;
                             }
                             break;
